@@ -86,6 +86,18 @@ class _Instance:
         _ = self.connect(key, val)  # Discard the returned `self`
         return None
 
+    def _check_editable(self) -> None:
+        """Fail if the Module we are part of no longer takes edits from the designer:
+        its elaboration has been completed, or has begun (and failed part-way, e.g. in one of its parents).
+        Elaboration results are cached, so such edits would skip some or all of the elaboration passes."""
+        parent = getattr(self, "_parent_module", None)
+        if parent is None or getattr(parent, "_elaboration_open", False):
+            return  # Not in a Module yet, or being worked on by an elaboration pass
+        if getattr(parent, "_elaborated", None) is not None or getattr(
+            parent, "_elaboration_started", False
+        ):
+            raise RuntimeError(f"Cannot edit connections of {self}: {parent} has been elaborated.")
+
     def connect(self, portname: str, conn: Connectable) -> "_Instance":
         """Connect `conn` to port (name) `portname`.
         Called by both by-call and by-assignment convenience methods, and usable directly.
@@ -100,6 +112,7 @@ class _Instance:
             conn = AnonymousBundle(**conn)
         if not is_connectable(conn):
             raise TypeError(f"{self} attempting to connect non-connectable {conn}")
+        self._check_editable()
 
         # The main event: actually stick `conn` in the `conns` dict
         if portname in self.conns:
@@ -117,6 +130,7 @@ class _Instance:
         Returns the formerly-connected `Connectable`.
         Raises a KeyError if the port is not connected."""
 
+        self._check_editable()
         conn = self.conns.pop(portname)
         conn._connected_ports.remove(_get_connref(self, portname))
         return conn
@@ -138,6 +152,7 @@ class _Instance:
             conn = AnonymousBundle(**conn)
         if not is_connectable(conn):
             raise TypeError(f"{self} attempting to connect non-connectable {conn}")
+        self._check_editable()
 
         connref = _get_connref(self, portname)
         # Get a reference to the old connection in the `conns` dict, without removing it
